@@ -13,15 +13,25 @@
     grahamHull_isStrictHull_exact   — proved in full for exact scalar types (`rnd = id`)
     grahamHull_isStrictHull_partial — any rounding, under `DistExactPivot` (rounded squared distances
                                       order points collinear with the pivot like the exact ones)
-    quickHull_isStrictHull_partial  — proved when the Graham fallback is taken; when quick-hull keeps
-                                      its own ring, containment of that ring is a hypothesis
-  Not proved (kept visible, decided on every generated case by running the verified checker on the
-  implementation's output):
-    theorem quickHull_isStrictHull (pts) : hasTriangle pts → isStrictHull (quickHull rnd pts) pts
-    theorem grahamHull_isStrictHull (pts) : hasTriangle pts → isStrictHull (grahamHull rnd pts false) pts
+    quickHull_isStrictHull_partial  — (wave 3) proved when the Graham fallback is taken; when quick-hull
+                                      keeps its own ring, containment of that ring is a hypothesis `hraw`
+  Section "T3: correctness of the quick-hull path" discharges `hraw`:
+    strictCcwHull_is_convex           — what `is_strict_ccw_hull` establishes: an accepted ring is convex
+    quickHull_ring_spans_input        — every input coordinate is in the convex hull of quick-hull's ring
+                                        (from the structure of `hull_set`; any rounding, any tie-break)
+    quickHull_kept_ring_isStrictHull  — so a ring kept after verification is the strict hull (any rounding)
+    convexHull_isStrictHull_exact, quickHull_isStrictHull_exact — exact scalar types: no hypothesis
+                                        beyond three non-collinear coordinates
+    convexHull_isStrictHull_f64_partial, quickHull_isStrictHull_f64_partial — `f64`: outside the
+                                        driver's SKIP class `grahamTie`
+    strict_hull_unique, quick_graham_same_vertices_exact — the strict hull is unique as a vertex set
+    convexHull_degenerate             — inputs without three non-collinear coordinates
+  Not provable as stated (kept visible):
+    theorem quickHull_isStrictHull (rnd pts) : hasTriangle pts → isStrictHull (quickHull rnd pts) pts
+    theorem grahamHull_isStrictHull (rnd pts) : hasTriangle pts → isStrictHull (grahamHull rnd pts false) pts
       (as stated, for an *arbitrary* function `rnd`, this is false: a rounding that maps every
       distance to 0 lets a nearer collinear point follow a farther one, and the scan drops the
-      farther one; see `DistExactPivot`)
+      farther one; see `DistExactPivot`. For quick-hull only the Graham fallback needs the hypothesis.)
 -/
 import GeoModel.Hull
 import GeoProofs.Lemmas.C08Mem
@@ -33,6 +43,9 @@ import GeoProofs.Lemmas.C08QHull
 import GeoProofs.Lemmas.C08QQuick
 import GeoProofs.Lemmas.C08QRound
 import GeoProofs.Lemmas.C08QF64
+import GeoProofs.Lemmas.QHULMain
+import GeoProofs.Lemmas.QHULUniq
+import GeoProofs.Lemmas.QHULDegen
 import Mathlib.Tactic.Linarith
 import Mathlib.Tactic.Ring
 
@@ -870,5 +883,298 @@ the strict hull -/
 example : isStrictHull (quickHull id f6Input) f6Input = true :=
   quickHull_isStrictHull_partial id f6Input (by decide +kernel) (distExactPivot_id _)
     (fun _ h => absurd h (by decide +kernel))
+
+/-! ### T3: correctness of the quick-hull path
+
+`quick_hull` accepts its ring only after `is_strict_ccw_hull`, which tests convexity of the ring
+*locally* (every turn strictly left) plus one winding (two lexicographic direction changes). It does
+not test containment of the input. Containment follows from the structure of the recursion: a point
+dropped by `hull_set` lies in a triangle of three coordinates that end up in the ring — whatever
+point the rounded farthest-point search picked.
+Helper lemmas: GeoProofs/Lemmas/QHULCyc.lean (two monotone runs ⇒ convex), QHULRing.lean (lists),
+QHULPart.lean (`partition_slice`, extremes), QHULSet.lean (`hull_set` invariant), QHULMain.lean,
+QHULUniq.lean (uniqueness), QHULDegen.lean (degenerate inputs). -/
+
+/-- [T] **what `is_strict_ccw_hull` establishes**: a closed ring whose cyclically consecutive
+vertices all turn strictly left and whose edges switch between lexicographically increasing and
+decreasing exactly twice is a convex polygon traversed once counter-clockwise — every vertex is
+left of or on *every* edge (not only the adjacent ones). -/
+theorem strictCcwHull_is_convex (ring : List Pt) (hc : ring.head? = ring.getLast?)
+    (h : isStrictCcwHull ring = true) : ∀ e ∈ edges ring, ∀ w ∈ ring, 0 ≤ cross e.1 e.2 w :=
+  isStrictCcwHull_convex ring hc h
+
+example : 0 ≤ cross ⟨1, 0⟩ ⟨1, 1⟩ ⟨0, 1⟩ :=
+  strictCcwHull_is_convex [⟨0, 0⟩, ⟨1, 0⟩, ⟨1, 1⟩, ⟨0, 1⟩, ⟨0, 0⟩] (by decide +kernel) (by decide +kernel)
+    (⟨1, 0⟩, ⟨1, 1⟩) (by decide +kernel) ⟨0, 1⟩ (by decide +kernel)
+
+/-- the winding clause is needed: the pentagram turns strictly left at every vertex, but winds
+twice (four direction changes); it is rejected, and it is not convex -/
+example : cycTriplesCcw [⟨0, 3⟩, ⟨-2, -3⟩, ⟨3, 1⟩, ⟨-3, 1⟩, ⟨2, -3⟩] = true ∧
+    isStrictCcwHull [⟨0, 3⟩, ⟨-2, -3⟩, ⟨3, 1⟩, ⟨-3, 1⟩, ⟨2, -3⟩, ⟨0, 3⟩] = false ∧
+    cross ⟨0, 3⟩ ⟨-2, -3⟩ ⟨-3, 1⟩ < 0 := by
+  refine ⟨by decide +kernel, by decide +kernel, by norm_num [cross]⟩
+
+/-- [T] **containment from the structure of quick-hull**: every input coordinate lies in the convex
+hull of the ring built by `quick_hull` before verification (`Inside`: in every closed half-plane
+that contains the ring's coordinates) — for every rounding function, every tie-break of the
+farthest-point search, also when the ring itself is not convex. -/
+theorem quickHull_ring_spans_input (rnd : Rat → Rat) (pts : List Pt) (h2 : 2 ≤ pts.length) :
+    ∀ p ∈ pts, Inside (quickHullRaw rnd pts).2 p :=
+  quickHullRaw_inside rnd pts h2
+
+example : Inside (quickHullRaw roundF64 k5Input).2 ⟨1 / 8, 1 / 4⟩ :=
+  quickHull_ring_spans_input roundF64 k5Input (by decide) _ (by decide +kernel)
+
+/-- [T] `hull_set(a, b, set)` for a slice strictly left of `a → b`: every point of the slice is in
+the convex hull of `a`, `b` and the coordinates the call pushes (the recursion invariant). -/
+theorem hullSet_spans_slice (rnd : Rat → Rat) (a b : Pt) (set : List Pt)
+    (hleft : ∀ x ∈ set, 0 < cross a b x) :
+    ∀ x ∈ set, Inside (a :: b :: (hullSet rnd set.length a b set).2) x :=
+  hullSet_inside rnd set.length a b set (le_refl _) hleft
+
+example : Inside (⟨0, 0⟩ :: ⟨4, 0⟩ :: (hullSet id 3 ⟨0, 0⟩ ⟨4, 0⟩ [⟨1, 1⟩, ⟨2, 3⟩, ⟨3, 1⟩]).2) ⟨1, 1⟩ :=
+  hullSet_spans_slice id ⟨0, 0⟩ ⟨4, 0⟩ [⟨1, 1⟩, ⟨2, 3⟩, ⟨3, 1⟩] (by decide +kernel) _ (by decide +kernel)
+
+/-- [T] `partition_slice` partitions: the first part satisfies the predicate, the second does not,
+and no element is lost or added. -/
+theorem partition_slice_spec (pred : Pt → Bool) (xs : List Pt) :
+    (∀ x ∈ (partition pred xs).1, pred x = true) ∧ (∀ x ∈ (partition pred xs).2, pred x = false) ∧
+    (partition pred xs).1.length + (partition pred xs).2.length = xs.length :=
+  partition_spec pred xs
+
+/-- [T] the first two coordinates `quick_hull` removes are a lexicographically least and a
+lexicographically greatest coordinate (`least_and_greatest_index` and the index fix-up after the
+first `swap_with_first_and_remove`). -/
+theorem quickHull_min_max (pts : List Pt) (h2 : 2 ≤ pts.length) :
+    let mm := leastGreatest pts
+    let s1 := swapRemove pts mm.1
+    let s2 := swapRemove s1.2 ((if mm.2 = 0 then mm.1 else mm.2) - 1)
+    (∀ x ∈ pts, ¬ lexLt x s1.1 = true) ∧ (∀ x ∈ pts, ¬ lexLt s2.1 x = true) :=
+  quickHull_extremes pts h2
+
+example : ∀ x ∈ f6Input, ¬ lexLt x ⟨0, 5⟩ = true := (quickHull_min_max f6Input (by decide)).1
+
+/-- [T] a closed ring that passes `is_strict_ccw_hull`, consists of input coordinates and spans the
+input is accepted by the checker `isStrictHull` (closed, strict turns, vertices ⊆ input, every
+input coordinate left of or on every edge). -/
+theorem verified_ring_is_strict_hull (ring pts : List Pt) (hc : ring.head? = ring.getLast?)
+    (hv : isStrictCcwHull ring = true) (hsub : ∀ v ∈ ring, v ∈ pts)
+    (hins : ∀ p ∈ pts, Inside ring p) : isStrictHull ring pts = true :=
+  verified_ring_isStrictHull ring pts hc hv hsub hins
+
+example : isStrictHull [⟨0, 0⟩, ⟨2, 0⟩, ⟨0, 2⟩, ⟨0, 0⟩] [⟨0, 0⟩, ⟨2, 0⟩, ⟨0, 2⟩] = true :=
+  verified_ring_is_strict_hull _ _ (by decide +kernel) (by decide +kernel) (by decide +kernel)
+    (fun p hp => Inside.of_mem (by
+      simp only [List.mem_cons, List.not_mem_nil, or_false] at hp ⊢
+      tauto))
+
+/-- [T] **the ring quick-hull keeps after its verification is the strict hull of the input** —
+every rounding function, no hypothesis on the scalar arithmetic: this is the hypothesis `hraw` of
+`quickHull_isStrictHull_partial`, proved. -/
+theorem quickHull_kept_ring_isStrictHull (rnd : Rat → Rat) (pts : List Pt) (h2 : 2 ≤ pts.length)
+    (hv : isStrictCcwHull (quickHullRaw rnd pts).2 = true) :
+    isStrictHull (quickHullRaw rnd pts).2 pts = true :=
+  quickHullRaw_verified rnd pts h2 hv
+
+example : isStrictHull (quickHullRaw roundF64 [⟨1 / 10, 1⟩, ⟨2, 0⟩, ⟨0, 0⟩, ⟨1, 0⟩, ⟨2, 2⟩, ⟨0, 2⟩]).2
+    [⟨1 / 10, 1⟩, ⟨2, 0⟩, ⟨0, 0⟩, ⟨1, 0⟩, ⟨2, 2⟩, ⟨0, 2⟩] = true :=
+  quickHull_kept_ring_isStrictHull roundF64 _ (by decide) (by decide +kernel)
+
+/-- [T] with three non-collinear coordinates the ring of quick-hull has at least four coordinates:
+the branch "at most three coordinates, returned unverified" is only taken for collinear input. -/
+theorem quickHull_ring_verified_when_triangle (rnd : Rat → Rat) (pts : List Pt)
+    (h2 : 2 ≤ pts.length) (ht : hasTriangle pts = true) : 4 ≤ (quickHullRaw rnd pts).2.length :=
+  quickHullRaw_ring_long rnd pts h2 ht
+
+example : 4 ≤ (quickHullRaw id f6Input).2.length :=
+  quickHull_ring_verified_when_triangle id f6Input (by decide) (by decide +kernel)
+
+/-- [T] `quick_hull` whenever its own ring passes the verification: the strict hull, for every
+rounding function (nothing is assumed about the arithmetic of the farthest-point search). -/
+theorem quickHull_isStrictHull_of_verified (rnd : Rat → Rat) (pts : List Pt) (h4 : 4 ≤ pts.length)
+    (hv : isStrictCcwHull (quickHullRaw rnd pts).2 = true) :
+    isStrictHull (quickHull rnd pts) pts = true := by
+  have hk := quickHull_kept_ring_isStrictHull rnd pts (by omega) hv
+  unfold quickHull
+  rw [if_neg (by omega)]
+  dsimp only
+  rw [if_neg (by simp [hv])]
+  exact hk
+
+example : isStrictHull (quickHull roundF64 [⟨1 / 10, 1⟩, ⟨2, 0⟩, ⟨0, 0⟩, ⟨1, 0⟩, ⟨2, 2⟩, ⟨0, 2⟩])
+    [⟨1 / 10, 1⟩, ⟨2, 0⟩, ⟨0, 0⟩, ⟨1, 0⟩, ⟨2, 2⟩, ⟨0, 2⟩] = true :=
+  quickHull_isStrictHull_of_verified roundF64 _ (by decide) (by decide +kernel)
+
+/-- [Tp] **`quickHull_isStrictHull`** with `hraw` discharged: the only hypothesis left is the one
+the *Graham fallback* needs from the scalar arithmetic (`DistExactPivot`).
+(Full statement `∀ rnd pts, hasTriangle pts → isStrictHull (quickHull rnd pts) pts` is false for an
+arbitrary function `rnd`, because of the fallback; see `grahamHull_isStrictHull_partial`.) -/
+theorem quickHull_isStrictHull_distExact_partial (rnd : Rat → Rat) (pts : List Pt)
+    (ht : hasTriangle pts = true) (hd : DistExactPivot rnd pts) :
+    isStrictHull (quickHull rnd pts) pts = true :=
+  quickHull_isStrictHull_partial rnd pts ht hd (fun h4 heq => by
+    rcases quickHull_verified_or_graham rnd pts h4 with ⟨_, hl | hv⟩ | hg
+    · have := quickHull_ring_verified_when_triangle rnd pts (by omega) ht
+      omega
+    · exact quickHull_kept_ring_isStrictHull rnd pts (by omega) hv
+    · rw [← heq, hg]
+      have hm := quickHullRaw_same_coords rnd pts (by omega)
+      rw [← isStrictHull_congr _ _ _ hm]
+      apply grahamHull_isStrictHull_partial
+      · rw [hasTriangle_congr _ _ hm]; exact ht
+      · exact distExactPivot_congr rnd pts _ hm hd)
+
+example : isStrictHull (quickHull id k5Input) k5Input = true :=
+  quickHull_isStrictHull_distExact_partial id k5Input (by decide +kernel) (distExactPivot_id _)
+
+/-- [T] the hypothesis `hraw` of `quickHull_isStrictHull_partial` / `convexHull_isStrictHull_partial`
+holds (under their other hypotheses): it is no longer an assumption. -/
+theorem quickHull_hraw (rnd : Rat → Rat) (pts : List Pt) (ht : hasTriangle pts = true)
+    (hd : DistExactPivot rnd pts) : 4 ≤ pts.length → quickHull rnd pts = (quickHullRaw rnd pts).2 →
+      isStrictHull (quickHullRaw rnd pts).2 pts = true := by
+  intro _ heq
+  rw [← heq]
+  exact quickHull_isStrictHull_distExact_partial rnd pts ht hd
+
+example : isStrictHull (quickHullRaw id k5Input).2 k5Input = true :=
+  quickHull_hraw id k5Input (by decide +kernel) (distExactPivot_id _) (by decide) (by decide +kernel)
+
+/-- [T] **`quickHull_isStrictHull`, exact scalar types** (`rnd = id`; `i64` without overflow): for
+every coordinate list with three non-collinear coordinates `quick_hull` returns a closed ring that
+turns strictly left at every vertex (no repeated vertex, none on the segment between its
+neighbours), whose vertices are input coordinates and which has every input coordinate left of or
+on every edge. No further hypothesis. -/
+theorem quickHull_isStrictHull_exact (pts : List Pt) (ht : hasTriangle pts = true) :
+    isStrictHull (quickHull id pts) pts = true :=
+  quickHull_isStrictHull_distExact_partial id pts ht (distExactPivot_id pts)
+
+example : isStrictHull (quickHull id f6Input) f6Input = true :=
+  quickHull_isStrictHull_exact f6Input (by decide +kernel)
+
+/-- [T] **`convexHull_isStrictHull`, exact scalar types**: the same for `ConvexHull::convex_hull`. -/
+theorem convexHull_isStrictHull_exact (pts : List Pt) (ht : hasTriangle pts = true) :
+    isStrictHull (convexHull id pts) pts = true := by
+  rw [convexHull_eq_quickHull]; exact quickHull_isStrictHull_exact pts ht
+
+example : isStrictHull (convexHull id f6Input) f6Input = true :=
+  convexHull_isStrictHull_exact f6Input (by decide +kernel)
+
+/-- [T] consequence, spelled out: containment of every input coordinate in `convex_hull`'s ring. -/
+theorem convexHull_contains_exact (pts : List Pt) (ht : hasTriangle pts = true) :
+    ∀ p ∈ pts, ∀ e ∈ edges (convexHull id pts), 0 ≤ cross e.1 e.2 p :=
+  isStrictHull_contains _ _ (convexHull_isStrictHull_exact pts ht)
+
+example : 0 ≤ cross ⟨5, 0⟩ ⟨5, 5⟩ ⟨4, 2⟩ :=
+  convexHull_contains_exact f6Input (by decide +kernel) ⟨4, 2⟩ (by decide +kernel) (⟨5, 0⟩, ⟨5, 5⟩)
+    (by decide +kernel)
+
+/-- [Tp] **`quickHull_isStrictHull` for `f64`** (dot products and distances rounded with `roundF64`
+after every operation): the strict hull on every input outside the driver's SKIP class `grahamTie`
+(two distinct coordinates collinear with the lexicographically least one at the same rounded
+distance from it — the only inputs on which the Graham fallback's `sort_unstable_by` is not
+determined). The rounding of the farthest-point search needs no hypothesis.
+(Full statement without `hnt`: not provable about the model, whose fallback sort is an insertion
+sort; the hypothesis is only used when the fallback is taken.) -/
+theorem quickHull_isStrictHull_f64_partial (pts : List Pt) (ht : hasTriangle pts = true)
+    (hnt : grahamTie roundF64 (swapRemove pts (leastIndex pts)).1 pts = false) :
+    isStrictHull (quickHull roundF64 pts) pts = true :=
+  quickHull_isStrictHull_distExact_partial roundF64 pts ht
+    (distExactPivot_of_notie roundF64 roundF64_mono roundF64_zero pts hnt)
+
+example : isStrictHull (quickHull roundF64 k5Input) k5Input = true :=
+  quickHull_isStrictHull_f64_partial k5Input (by decide +kernel) (by decide +kernel)
+
+/-- [Tp] the same for `ConvexHull::convex_hull` on `f64`. -/
+theorem convexHull_isStrictHull_f64_partial (pts : List Pt) (ht : hasTriangle pts = true)
+    (hnt : grahamTie roundF64 (swapRemove pts (leastIndex pts)).1 pts = false) :
+    isStrictHull (convexHull roundF64 pts) pts = true := by
+  rw [convexHull_eq_quickHull]; exact quickHull_isStrictHull_f64_partial pts ht hnt
+
+example : isStrictHull (convexHull roundF64 k5Input) k5Input = true :=
+  convexHull_isStrictHull_f64_partial k5Input (by decide +kernel) (by decide +kernel)
+
+/-! ### T3: uniqueness — quick-hull and Graham agree -/
+
+/-- [T] **the strict hull is unique**: two rings accepted by the checker for the same coordinates
+have the same vertex set (each vertex of one is the unique minimiser over the input of an affine
+function, and such a minimiser is a vertex of the other). -/
+theorem strict_hull_unique (h k pts : List Pt) (hh : isStrictHull h pts = true)
+    (hk : isStrictHull k pts = true) : sameVertexSet h k = true :=
+  strictHull_unique h k pts hh hk
+
+example : sameVertexSet [⟨0, 0⟩, ⟨1, 0⟩, ⟨1, 1⟩, ⟨0, 1⟩, ⟨0, 0⟩] [⟨1, 1⟩, ⟨0, 1⟩, ⟨0, 0⟩, ⟨1, 0⟩, ⟨1, 1⟩] = true :=
+  strict_hull_unique _ _ [⟨0, 0⟩, ⟨1, 0⟩, ⟨1, 1⟩, ⟨0, 1⟩, ⟨1, 1⟩] (by decide +kernel) (by decide +kernel)
+
+/-- [T] **quick-hull and the Graham scan give the same vertex set**, exact scalar types, all inputs
+with three non-collinear coordinates (what the driver compares on every case). -/
+theorem quick_graham_same_vertices_exact (pts : List Pt) (ht : hasTriangle pts = true) :
+    sameVertexSet (quickHull id pts) (grahamHull id pts false) = true :=
+  strict_hull_unique _ _ pts (quickHull_isStrictHull_exact pts ht) (grahamHull_isStrictHull_exact pts ht)
+
+example : sameVertexSet (quickHull id f6Input) (grahamHull id f6Input false) = true :=
+  quick_graham_same_vertices_exact f6Input (by decide +kernel)
+
+/-- [Tp] the same for `f64`, outside the SKIP class `grahamTie`. -/
+theorem quick_graham_same_vertices_f64_partial (pts : List Pt) (ht : hasTriangle pts = true)
+    (hnt : grahamTie roundF64 (swapRemove pts (leastIndex pts)).1 pts = false) :
+    sameVertexSet (quickHull roundF64 pts) (grahamHull roundF64 pts false) = true :=
+  strict_hull_unique _ _ pts (quickHull_isStrictHull_f64_partial pts ht hnt)
+    (grahamHull_isStrictHull_f64_partial pts ht
+      (graham_skip_class_covers roundF64 pts hnt))
+
+example : sameVertexSet (quickHull roundF64 k5Input) (grahamHull roundF64 k5Input false) = true :=
+  quick_graham_same_vertices_f64_partial k5Input (by decide +kernel) (by decide +kernel)
+
+/-! ### T3: degenerate inputs (no three non-collinear coordinates) -/
+
+/-- [T] `quick_hull` of four or more collinear (or equal) coordinates: neither partition finds a
+point strictly beside `min → max`, the ring is `max, min`, closed: `[M, m, M]`, or `[m, m]` when all
+coordinates are equal. It has at most three coordinates and is returned unverified. -/
+theorem quickHull_collinear_ring (rnd : Rat → Rat) (pts : List Pt) (h4 : 4 ≤ pts.length)
+    (hnt : hasTriangle pts = false) :
+    ∃ m M, m ∈ pts ∧ M ∈ pts ∧ (∀ x ∈ pts, ¬ lexLt x m = true) ∧ (∀ x ∈ pts, ¬ lexLt M x = true) ∧
+      quickHull rnd pts = close [M, m] :=
+  quickHull_collinear rnd pts h4 hnt
+
+example : ∃ m M, m ∈ [(⟨1, 1⟩ : Pt), ⟨3, 3⟩, ⟨0, 0⟩, ⟨2, 2⟩, ⟨1, 1⟩] ∧ M ∈ [(⟨1, 1⟩ : Pt), ⟨3, 3⟩, ⟨0, 0⟩, ⟨2, 2⟩, ⟨1, 1⟩] ∧
+    (∀ x ∈ [(⟨1, 1⟩ : Pt), ⟨3, 3⟩, ⟨0, 0⟩, ⟨2, 2⟩, ⟨1, 1⟩], ¬ lexLt x m = true) ∧
+    (∀ x ∈ [(⟨1, 1⟩ : Pt), ⟨3, 3⟩, ⟨0, 0⟩, ⟨2, 2⟩, ⟨1, 1⟩], ¬ lexLt M x = true) ∧
+    quickHull roundF64 [(⟨1, 1⟩ : Pt), ⟨3, 3⟩, ⟨0, 0⟩, ⟨2, 2⟩, ⟨1, 1⟩] = close [M, m] :=
+  quickHull_collinear_ring roundF64 _ (by decide) (by decide +kernel)
+
+/-- [T] the closed pair, spelled out: no repeated vertex except the closing one, unless the two
+ends coincide -/
+theorem close_pair_eq (a b : Pt) : close [a, b] = if b = a then [a, b] else [a, b, a] :=
+  close_pair a b
+
+/-- [T] **degenerate inputs of `convex_hull`** (non-empty, no three non-collinear coordinates: all
+collinear, all equal, one or two points; any number of coordinates, any rounding): the ring consists
+of a lexicographically least coordinate `m` and a greatest one `M` — the two ends of the segment —
+as `close [m, M]` (fewer than four coordinates: `[m, M, m]`) or `close [M, m]` (four or more:
+`[M, m, M]`); when all coordinates are equal both are `[m, m]`. -/
+theorem convexHull_degenerate (rnd : Rat → Rat) (pts : List Pt) (hne : pts ≠ [])
+    (hnt : hasTriangle pts = false) :
+    ∃ m M, m ∈ pts ∧ M ∈ pts ∧ (∀ x ∈ pts, ¬ lexLt x m = true) ∧ (∀ x ∈ pts, ¬ lexLt M x = true) ∧
+      (convexHull rnd pts = close [m, M] ∨ convexHull rnd pts = close [M, m]) := by
+  rw [convexHull_eq_quickHull]
+  by_cases hl : pts.length < 4
+  · obtain ⟨m, M, h1, h2, h3, h4, h5⟩ := trivialHull_collinear pts hne hl hnt
+    refine ⟨m, M, h1, h2, h3, h4, Or.inl ?_⟩
+    unfold quickHull; rw [if_pos hl]; exact h5
+  · obtain ⟨m, M, h1, h2, h3, h4, h5⟩ := quickHull_collinear rnd pts (by omega) hnt
+    exact ⟨m, M, h1, h2, h3, h4, Or.inr h5⟩
+
+example : ∃ m M, m ∈ [(⟨2, 2⟩ : Pt), ⟨0, 0⟩, ⟨1, 1⟩] ∧ M ∈ [(⟨2, 2⟩ : Pt), ⟨0, 0⟩, ⟨1, 1⟩] ∧
+    (∀ x ∈ [(⟨2, 2⟩ : Pt), ⟨0, 0⟩, ⟨1, 1⟩], ¬ lexLt x m = true) ∧
+    (∀ x ∈ [(⟨2, 2⟩ : Pt), ⟨0, 0⟩, ⟨1, 1⟩], ¬ lexLt M x = true) ∧
+    (convexHull id [(⟨2, 2⟩ : Pt), ⟨0, 0⟩, ⟨1, 1⟩] = close [m, M] ∨
+      convexHull id [(⟨2, 2⟩ : Pt), ⟨0, 0⟩, ⟨1, 1⟩] = close [M, m]) :=
+  convexHull_degenerate id _ (by simp) (by decide +kernel)
+
+/-- the two degenerate shapes, evaluated: three collinear points, and five equal points -/
+example : convexHull id [⟨2, 2⟩, ⟨0, 0⟩, ⟨1, 1⟩] = [⟨0, 0⟩, ⟨2, 2⟩, ⟨0, 0⟩] ∧
+    convexHull id [⟨1, 1⟩, ⟨3, 3⟩, ⟨0, 0⟩, ⟨2, 2⟩, ⟨1, 1⟩] = [⟨3, 3⟩, ⟨0, 0⟩, ⟨3, 3⟩] ∧
+    convexHull id [⟨1, 2⟩, ⟨1, 2⟩, ⟨1, 2⟩, ⟨1, 2⟩, ⟨1, 2⟩] = [⟨1, 2⟩, ⟨1, 2⟩] := by
+  decide +kernel
 
 end Geo.Proofs.C08
